@@ -42,6 +42,22 @@ Proof. exact clean_intact. Qed.
 Theorem C18_ids_distinct : forall cfg s, reachable cfg s -> NoDup (all_ids s).
 Proof. exact ids_distinct_l. Qed.
 
+(* fault-free progress ("returns exactly N" is not only safety): while a request is running, no worker
+   has exited, no message is torn and cmd's read lock is not dead, somebody can take a step that is
+   neither a fault nor a timeout - the dispatch loop always reaches the timed get (`except queue.Full:
+   break` is the step EFull), also for N > 4*workers, and cannot starve the workers ... *)
+Theorem C18_request_progress : forall cfg s, reachable cfg s ->
+  outcome (par s) = ORunning -> no_exit s -> intact s -> rdead s = false -> (nworkers s >= 1)%nat ->
+  exists e s', is_fault e = false /\ e <> ETimeout /\ step cfg e s = Some s'.
+Proof. exact request_progress_l. Qed.
+
+(* ... and every such step lowers `rmeasure` (6*N + 2*workers + 2 right after EBegin N): a request that is
+   still running after a fault-free, timeout-free schedule tr has taken at most rmeasure s steps *)
+Theorem C18_request_bounded : forall cfg tr s s', reachable cfg s -> run cfg tr s = Some s' ->
+  outcome (par s') = ORunning -> (forall e, In e tr -> productive e = true) ->
+  outcome (par s) = ORunning /\ (length tr + rmeasure s' <= rmeasure s)%nat.
+Proof. exact request_bounded_l. Qed.
+
 (* "if a worker fails ... the request raises an error within bounded time", stated without fairness as
    bounded progress of the parent's own steps: once a worker has a non-zero exit code, after at most
    outstanding+1 further completions of the timed get the request has returned exactly N transcripts
